@@ -364,7 +364,7 @@ def execute(scn, refs):  # noqa: C901, PLR0912, PLR0915
             makers.setdefault(name, set()).add(tid)
     stats["site_hits"] = site_hits
     stats["both_missed_cache"] = sum(1 for v in makers.values() if len(v) > 1)
-    segs = [[tid, (-1 if kind in ("finish", "block") else cnt)] for tid, cnt, kind in sched.segments]
+    segs = [[tid, (-1 if kind in ("finish", "block") else cnt), cnt] for tid, cnt, kind in sched.segments]
     return {
         "violations": violations, "stats": stats, "segments": segs,
         "switches": sched.switches[:200], "steps": list(sched.steps),
@@ -420,10 +420,11 @@ def candidates(scn):  # noqa: C901
             s["threads"] = [p for i, p in enumerate(threads) if i != t]
             if segs is not None:
                 ns = []
-                for tid, cnt in segs:
+                for seg in segs:
+                    tid = seg[0]
                     if tid == t:
                         continue
-                    ns.append([tid - 1 if tid > t else tid, cnt])
+                    ns.append([tid - 1 if tid > t else tid, *seg[1:]])
                 s["policy"] = {"kind": "replay", "segments": ns or [[0, -1]]}
             yield s
     # drop ops from the end of a program / single ops (call indices must stay valid)
@@ -447,18 +448,47 @@ def candidates(scn):  # noqa: C901
         s = dict(scn)
         s["norm_cache"] = 128
         yield s
-    # schedule: let a thread run on (remove a switch), or drop a segment
+    # schedule
     if segs is not None:
-        for i in range(len(segs)):
-            if segs[i][1] != -1:
-                s = dict(scn)
-                s["policy"] = {"kind": "replay", "segments": segs[:i] + [[segs[i][0], -1]] + segs[i + 1:]}
-                yield s
-        for i in range(len(segs)):
-            if len(segs) > 1:
-                s = dict(scn)
-                s["policy"] = {"kind": "replay", "segments": segs[:i] + segs[i + 1:]}
-                yield s
+        yield from _schedule_candidates(scn, segs)
+
+
+def _schedule_candidates(scn, segs):
+    from itertools import permutations
+    n = len(segs)
+    nt = len(scn["threads"])
+    if n > nt + 1:
+        # (a) no overlap at all: a failure here is a pure history bug
+        for perm in list(permutations(range(nt)))[:6]:
+            yield {**scn, "policy": {"kind": "replay", "segments": [[t, -1] for t in perm]}}
+        # (b) one preemption, at a switch point of the recorded trace
+        cum = [0] * nt
+        points = []
+        for seg in segs:
+            tid, cnt = seg[0], seg[1]
+            raw = seg[2] if len(seg) > 2 else cnt
+            if raw is None or raw < 0:
+                continue
+            cum[tid] += raw
+            if cnt != -1:
+                points.append((tid, cum[tid]))
+        if len(points) > 24:
+            step = len(points) / 24
+            points = [points[int(i * step)] for i in range(24)]
+        for tid, k in points:
+            others = [[o, -1] for o in range(nt) if o != tid]
+            yield {**scn, "policy": {"kind": "replay", "segments": [[tid, k], *others, [tid, -1]]}}
+    # (c) ddmin over the list of segments (big chunks first), then let single threads run on
+    size = n // 2
+    while size >= 1:
+        for start in range(0, n, size):
+            rest = segs[:start] + segs[start + size:]
+            if rest and len(rest) < n:
+                yield {**scn, "policy": {"kind": "replay", "segments": rest}}
+        size //= 2
+    for i in range(min(n, 40)):
+        if segs[i][1] != -1:
+            yield {**scn, "policy": {"kind": "replay", "segments": segs[:i] + [[segs[i][0], -1]] + segs[i + 1:]}}
 
 
 def _valid_calls(prog):
@@ -476,12 +506,12 @@ def violation_class(result):
     return v[0]["class"] if v else None
 
 
-def finding_key(scn, result):
-    v = result["violations"][0]
+def finding_key(scn, result, v=None):
+    v = v or result["violations"][0]
     types = sorted({op.get("t") or op.get("conv") for prog in scn["threads"] for op in prog if op.get("t") or op.get("conv")})
     return {"class": v["class"], "phase": v.get("phase"), "op": (v.get("op") or {}).get("op"), "types": types,
             "threads": len(scn["threads"]),
-            "preemptions": sum(1 for tid, cnt in scn["policy"].get("segments", []) if cnt != -1)}
+            "preemptions": sum(1 for seg in scn["policy"].get("segments", []) if seg[1] != -1)}
 
 
 def prelim_key(scn, result):
